@@ -122,7 +122,7 @@ Section S.
   Proof. apply mc_step_keeps. Qed.
 
   Theorem C18_factor_from_ratio (b : builder NN) r :
-    b_kt_ratio b = Some r -> factor (build b) = nmax n0 (nsub n1 r).
+    b_kt_ratio b = Some r -> factor (build b) = nmin (nmax n0 (nsub n1 r)) (fmax_ NN).
   Proof. intros H. unfold Optimiser.build. cbn [factor]. now rewrite H. Qed.
 
   Theorem C18_factor_default (b : builder NN) :
@@ -140,11 +140,17 @@ Section S.
     apply N.eqb_neq in H4. now rewrite H4.
   Qed.
 
+  (* the run starts from the configured temperature, a negative zero made a zero *)
+  Theorem C18_start_normalised (b : builder NN) :
+    kt_start (build b) = if neqb (b_kt_start b) n0 then n0 else b_kt_start b.
+  Proof. reflexivity. Qed.
+
   (* a zero (or otherwise non-positive / NaN) starting temperature never takes the factor
      from kt_finish: it is the default tenth, or 1 - ratio *)
   Theorem C18_factor_at_zero_start (b : builder NN) :
     nltb n0 (b_kt_start b) = false ->
-    factor (build b) = match b_kt_ratio b with Some r => nmax n0 (nsub n1 r) | None => tenth NN end.
+    factor (build b) =
+    match b_kt_ratio b with Some r => nmin (nmax n0 (nsub n1 r)) (fmax_ NN) | None => tenth NN end.
   Proof.
     intros H. unfold Optimiser.build. cbn [factor]. rewrite H.
     destruct (b_kt_ratio b), (b_kt_finish b); reflexivity.
